@@ -616,13 +616,65 @@ def apply_hoist(toks, hoist, hits):
 # merge
 
 
+def aligned_opcodes(a, b):
+    """difflib's opcodes, with every pure deletion / pure insertion slid left or right, as long as that is the same edit,
+    until it starts right after a statement boundary: `s1; X; s2` minus `X;` is reported as the removal of the statement
+    `X;`, not of a token run like `; X` or `. f(); x` that straddles two statements (and the annotations between them)"""
+    ops = [list(o) for o in difflib.SequenceMatcher(a=a, b=b, autojunk=False).get_opcodes()]
+    B = (';', '{', '}')
+    for k, o in enumerate(ops):
+        tag = o[0]
+        if tag not in ('delete', 'insert'):
+            continue
+        seq, lo, hi = (a, o[1], o[2]) if tag == 'delete' else (b, o[3], o[4])
+        if lo == 0 or seq[lo - 1] in B:
+            continue
+        prev_eq = ops[k - 1] if k > 0 and ops[k - 1][0] == 'equal' else None
+        next_eq = ops[k + 1] if k + 1 < len(ops) and ops[k + 1][0] == 'equal' else None
+        if not prev_eq or not next_eq:
+            continue
+        cands = []
+        # to the left: the run [lo-s, hi-s) is the same edit while seq[lo-s'] == seq[hi-s'] for s' = 1..s
+        if prev_eq:
+            room = prev_eq[2] - prev_eq[1] - 1
+            s = 0
+            while s < room and seq[lo - s - 1] == seq[hi - s - 1]:
+                s += 1
+                if lo - s - 1 < 0 or seq[lo - s - 1] in B:
+                    cands.append(-s)
+                    break
+        # to the right: while seq[lo+s'] == seq[hi+s'] for s' = 0..s-1
+        if next_eq:
+            room = next_eq[2] - next_eq[1] - 1
+            s = 0
+            while s < room and hi + s < len(seq) and seq[lo + s] == seq[hi + s]:
+                s += 1
+                if seq[lo + s - 1] in B:
+                    cands.append(s)
+                    break
+        if not cands:
+            continue
+        s = min(cands, key=abs)
+        if prev_eq:
+            prev_eq[2] += s
+            prev_eq[4] += s
+        if next_eq:
+            next_eq[1] += s
+            next_eq[3] += s
+        o[1] += s
+        o[2] += s
+        o[3] += s
+        o[4] += s
+    return [tuple(o) for o in ops]
+
+
 def merge(tmpl_toks, src_exec):
     """tmpl_toks: tokens of the template item with .ghost flags; src_exec: tokens E_s.
     Returns the merged token list (ghost tokens kept, executable tokens from the source)."""
     exec_idx = [k for k, t in enumerate(tmpl_toks) if not t.ghost]
     a = [tmpl_toks[k].text for k in exec_idx]
     b = [t.text for t in src_exec]
-    sm = difflib.SequenceMatcher(a=a, b=b, autojunk=False)
+    opcodes = aligned_opcodes(a, b)
     out = []
     pos = 0  # next template token index to emit
     prev_changed = False
@@ -632,7 +684,7 @@ def merge(tmpl_toks, src_exec):
     GST = ('proof', 'assert', 'assume', 'reveal')
     def ghost_stmt(ts):
         return any(t.ghost and (t.text in GST or (t.text == 'let' and k + 1 < len(ts) and ts[k + 1].text == 'ghost')) for k, t in enumerate(ts))
-    for tag, i1, i2, j1, j2 in sm.get_opcodes():
+    for tag, i1, i2, j1, j2 in opcodes:
         if tag == 'equal':
             stop = exec_idx[i2 - 1] + 1
             first = exec_idx[i1]
@@ -694,7 +746,7 @@ def merge(tmpl_toks, src_exec):
     # occurrence maps the same way - otherwise nothing is renamed and the verifier decides (or rejects) as is.
     ren = {}
     bad = set()
-    for tag, i1, i2, j1, j2 in sm.get_opcodes():
+    for tag, i1, i2, j1, j2 in opcodes:
         if tag == 'replace' and i2 - i1 == j2 - j1:
             for k in range(i2 - i1):
                 x, y = a[i1 + k], b[j1 + k]
